@@ -36,6 +36,8 @@ pub fn verif_dir() -> PathBuf {
 }
 const CPU_HANG_SECS: f64 = 20.0;
 const MAX_MINIMISED_PER_CHUNK: usize = 4;
+/// progress-file flag: the worker is minimising / re-rendering a violation of this case
+const MINIMISING: u64 = 1 << 63;
 
 pub fn case_seed(seed: u64, prop: &str, idx: u64) -> u64 { mix(&[seed, hash_str(prop), idx]) }
 
@@ -197,6 +199,9 @@ pub fn worker(prop: &dyn Prop, a: &WorkerArgs) -> i32 {
                     let _ = writeln!(viol_file, "{}", serde_json::to_string(&rec).unwrap());
                     continue;
                 }
+                // minimisation re-executes the case many times: tell the CPU watchdog that this is
+                // not the query of case `idx` running away
+                let _ = progress.write_at(&(idx | MINIMISING).to_le_bytes(), 0);
                 let (min_tape, did_min) = if minimised < MAX_MINIMISED_PER_CHUNK {
                     minimised += 1;
                     (minimise::shrink(prop, idx, &tape.data, &v.signature), true)
@@ -562,7 +567,10 @@ pub fn run_chunks(prop: &dyn Prop, a: &RunArgs) -> Merged {
                     // CPU watchdog
                     let pid = r.child.id();
                     if let (Some(idx), Some(cpu)) = (read_progress(&r.prefix), cpu_secs(pid)) {
-                        if idx != r.last_idx {
+                        if idx & MINIMISING != 0 {
+                            r.last_idx = idx;
+                            r.cpu_at_idx = cpu;
+                        } else if idx != r.last_idx {
                             r.last_idx = idx;
                             r.cpu_at_idx = cpu;
                         } else if cpu - r.cpu_at_idx > CPU_HANG_SECS {
@@ -580,7 +588,7 @@ pub fn run_chunks(prop: &dyn Prop, a: &RunArgs) -> Merged {
             if let Some((desc, hang)) = died {
                 let r = running.swap_remove(i);
                 let ci = r.chunk;
-                match read_progress(&r.prefix) {
+                match read_progress(&r.prefix).map(|i| i & !MINIMISING) {
                     Some(idx) if idx >= chunks[ci].from && idx < chunks[ci].to => {
                         if seen_abort_cases.insert(idx) {
                             merged.records.push(abort_record(prop, a, idx, &r.prefix, &desc, hang));
@@ -854,13 +862,15 @@ pub fn selftest(prop: &dyn Prop, tier: Tier, seed: u64, n: u64, workers: usize) 
     let b = run_chunks(prop, &mk(workers.max(2), "b"));
     let mut mismatches = 0u64;
     let mut first: Option<u64> = None;
+    let mut first_detail = String::new();
     for (idx, ha) in &a.hashes {
         match b.hashes.get(idx) {
             Some(hb) if hb == ha => {}
-            _ => {
+            other => {
                 mismatches += 1;
                 if first.is_none() {
                     first = Some(*idx);
+                    first_detail = format!("{ha:?} vs {other:?}");
                 }
             }
         }
@@ -868,7 +878,7 @@ pub fn selftest(prop: &dyn Prop, tier: Tier, seed: u64, n: u64, workers: usize) 
     let compared = a.hashes.len() as u64;
     let ok = mismatches == 0 && compared > 0 && a.hashes.len() == b.hashes.len();
     (
-        json!({"cases_run_twice": compared, "worker_counts": [1, workers.max(2)], "mismatches": mismatches, "first_mismatch_case": first,
+        json!({"cases_run_twice": compared, "worker_counts": [1, workers.max(2)], "mismatches": mismatches, "first_mismatch_case": first, "first_mismatch": first_detail,
                "compared": "per-case hash of the full event log (every syscall, network decision and server action with bytes; master-server filter order canonicalised) and the verdict (held / violated)"}),
         ok,
     )
